@@ -15,7 +15,7 @@
    [td_declares], [td_uses]; the correspondence run compares the parts built here
    with the parts js_parser.Parse builds for generated programs.
    Executable definitions only. *)
-From V Require Import Common.Base C04.Parts C04.Mark C04.Harness.
+From V Require Import Common.Base C04.Parts C04.Mark.
 
 Record tdecl := mkTDecl {
   td_declares : list sym;     (* top-level symbols the statement / declarator declares *)
@@ -101,3 +101,47 @@ Definition build_file (ts : bool) (f : tfile) : file :=
 
 Definition link (ts ignore_dce : bool) (entries : list nat) (prog : list tfile) : graph :=
   add_deps (mkGraph ts ignore_dce entries (map (build_file ts) prog)).
+
+(* ---- dependencies that do not come from a part's own symbol uses: linker step 6
+   "for importRef, importData := range ImportsToBind: for partIndex in
+   LocalPartsWithUses: depend on the parts declaring the imported symbol in the
+   file it resolves to AND on importData.ReExports (every `export {x} from` /
+   `export *` statement the resolution passed through)" ---- *)
+Definition declaring_in (g : graph) (t : nat) (u : sym) : list (nat * nat) :=
+  match get_file g t with
+  | Some f => match f_repr f with
+              | RJS => map (fun j => (t, j)) (top_level_symbol_to_parts (f_parts f) u)
+              | _ => [] end
+  | None => []
+  end.
+
+Definition binding_deps (g : graph) (b : binding) : list (nat * nat) :=
+  b_reexports b ++ declaring_in g (b_target_file b) (b_target b).
+
+Definition nat_mem (x : nat) (l : list nat) : bool := existsb (Nat.eqb x) l.
+
+Definition user_extra (g : graph) (bs : list binding) (s i : nat) : list (nat * nat) :=
+  flat_map (fun b => if Nat.eqb (b_file b) s && nat_mem i (b_users b) then binding_deps g b else []) bs.
+
+Fixpoint mapi_from {A B} (f : nat -> A -> B) (i : nat) (l : list A) : list B :=
+  match l with [] => [] | x :: r => f i x :: mapi_from f (S i) r end.
+
+Definition add_bindings (g : graph) (bs : list binding) : graph :=
+  mkGraph (g_tree_shaking g) (g_ignore_dce g) (g_entries g)
+    (mapi_from (fun s f =>
+       mkFile (f_repr f) (f_effects f) (f_entry f) (f_css f) (f_css_imports f)
+         (mapi_from (fun i p => mkPart (p_can_remove p) (p_force_ts p) (p_imports p)
+                                       (p_deps p ++ user_extra g bs s i) (p_declares p) (p_uses p))
+                    0 (f_parts f))) 0 (g_files g)).
+
+(* executable check used on dumped graphs: the dumped Dependencies already
+   contain everything add_bindings would add *)
+Definition pair_mem (d : nat * nat) (l : list (nat * nat)) : bool :=
+  existsb (fun e => Nat.eqb (fst d) (fst e) && Nat.eqb (snd d) (snd e)) l.
+Definition bindings_ok (g : graph) (bs : list binding) : bool :=
+  forallb (fun b =>
+    forallb (fun i =>
+      match get_part g (b_file b) i with
+      | Some p => forallb (fun d => pair_mem d (p_deps p)) (binding_deps g b)
+      | None => false
+      end) (b_users b)) bs.
